@@ -146,7 +146,9 @@ def scenario(st, seed, rep):
     # 'c' = through a cffi C call (GIL released and re-acquired), 'held' = through
     # a ctypes PYFUNCTYPE pointer (GIL held, thread state already current)
     nest = rnd.choice(['', '', 'c', 'held', 'both'])
-    do_fork = rnd.random() < 0.3 and not os.environ.get('VERIF_C36_NOFORK')
+    # (no fork in the TSan build: TSan does not support new threads after a multi-threaded fork)
+    do_fork = rnd.random() < 0.3 and not os.environ.get('VERIF_C36_NOFORK') and \
+        'TSAN_OPTIONS' not in os.environ
     log = []
     lock = threading.Lock()
     tls = threading.local()
@@ -246,6 +248,9 @@ def scenario(st, seed, rep):
         pid = os.fork()
         if pid == 0:
             try:
+                import signal
+                signal.signal(signal.SIGALRM, signal.SIG_DFL)
+                signal.alarm(240)          # a hung child must not outlive the scenario
                 os.close(rfd)
                 del log[:]
                 base = len(plan)
@@ -259,9 +264,17 @@ def scenario(st, seed, rep):
             finally:
                 os._exit(0)
         os.close(wfd)
+        import select, signal
         data = b''
         deadline = time.time() + 300
         while True:
+            left = deadline - time.time()
+            if left <= 0 or not select.select([rfd], [], [], left)[0]:
+                try:
+                    os.kill(pid, signal.SIGKILL)     # watchdog; reported as 'killed by signal'
+                except OSError:
+                    pass
+                break
             chunk = os.read(rfd, 65536)
             if not chunk:
                 break
@@ -343,7 +356,9 @@ def child_case(st, case):
             st_ = fork_info['status']
             where = ('child forked with %d exited foreign threads pending, then %d new waves'
                      % (fork_info['zombies_pending'], fork_info['waves']))
-            if os.WIFSIGNALED(st_):
+            if os.WIFSIGNALED(st_) and os.WTERMSIG(st_) in (14, 9) and not fork_info['san']:
+                rep.stat('forked_child_watchdog_fired')     # wall-clock watchdog: no verdict
+            elif os.WIFSIGNALED(st_):
                 rep.bad('crash-in-forked-child', '%s: killed by signal %d | %s | seed %d' % (
                     where, os.WTERMSIG(st_), fork_info['san'][:600].replace('\n', ' / '), seed),
                     seed)
